@@ -23,7 +23,6 @@ impl<S: BDDSymbol> Space<S> {
     pub fn empty(syms: &[S]) -> Self {
         let k = syms.len();
         assert!(k <= 6, "truth tables are u64: at most 6 variables");
-        assert!(syms.windows(2).all(|w| w[0] < w[1]));
         // the table indexed by truth table is only materialised for k <= 4; larger spaces are
         // used through tt() / canon() / intern() with handles kept by the caller
         let by_tt = if k <= 4 { vec![None; 1usize << (1usize << k)] } else { vec![] };
